@@ -188,6 +188,18 @@ fn main() {
                 if has_num != matches!(row[off + 3], V::Float(_)) || (!has_num && !matches!(row[off + 3], V::Null)) {
                     bad("avg(v) null-ness differs from 'the group has a number'");
                 }
+                // avg of an all-integer group: within float-summation error of the exact mean
+                // (tolerance relative to the mean of absolute values, so any summation order passes)
+                if has_num && !any_float && nn.iter().all(|v| matches!(v, V::Int(_))) {
+                    if let V::Float(a) = &row[off + 3] {
+                        let n = nn.len() as f64;
+                        let mean = exact as f64 / n;
+                        let abs: f64 = nn.iter().map(|v| if let V::Int(i) = v { (*i as f64).abs() } else { 0.0 }).sum::<f64>() / n;
+                        if !((a - mean).abs() <= 1e-9 * abs + 1e-9) {
+                            bad("avg(v) of an integer group is far from the exact mean (integer sum wrapped or saturated?)");
+                        }
+                    }
+                }
                 // min / max: an element, and the independent extremum on flat non-temporal values
                 let temporal = { let refs: Vec<&V> = nn.clone(); orc.any_temporal(&eng, &refs) };
                 for (col, want_ord) in [(off + 4, Ordering::Less), (off + 5, Ordering::Greater)] {
